@@ -78,6 +78,9 @@ func Parse(raw string, lim Limits) (*Pattern, error) {
 				if strings.ContainsAny(name, "{*/") {
 					return nil, fmt.Errorf("illegal character in parameter name %q", name)
 				}
+				if strings.ContainsAny(name, ":[]%") {
+					p.Gray = "hostname parameter name containing a character that host:port splitting treats specially"
+				}
 				hasParam = true
 			}
 			if strings.ContainsAny(static, "*") {
@@ -87,6 +90,7 @@ func Parse(raw string, lim Limits) (*Pattern, error) {
 				c := static[i]
 				if c == '_' {
 					p.Gray = "underscore in hostname label (not LDH, but accepted by many resolvers)"
+					nonNumeric = true
 					continue
 				}
 				if !isLDH(c) {
